@@ -11,6 +11,8 @@ from __future__ import annotations
 import ast
 import re
 
+from ..cfg import facts_at as _facts_c10
+
 from ..core import AnalysisError, FuncNode, call_name, calls_in, kwarg, last_attr, src
 from ..lockset import lock_fields
 
@@ -342,6 +344,57 @@ def run(ctx):
             )
     if nsub < 4:
         raise AnalysisError(f"only {nsub} reuniting submit methods found (expected >= 4)", "preexisting_")
+    # ---- C10.8 a monitor winding down stops only what it monitors ----------------------------------
+    # Batch executors embed a DockerExecutor for debug jobs; it has its own monitor thread and its own pending set.  When the batch monitor has
+    # drained *its* pending set it must not call the whole-executor stop(), which also stops the embedded executor: that clears the flag the
+    # docker monitor's loop guard reads, and the docker monitor exits with debug jobs still pending -- they are never reported.
+    r8 = ctx.rule("C10.8", "a monitor thread's own shutdown does not stop an embedded executor that has its own monitor", floor=2)
+    n8 = 0
+    for rel in EXECUTORS:
+        mod = repo.mod(rel)
+        for cname, cls in mod.classes.items():
+            if "." in cname:
+                continue
+            methods = {st.name: st for st in cls.body if isinstance(st, FuncNode)}
+            init = methods.get("__init__")
+            stopm = methods.get("stop")
+            mon = methods.get("_monitor")
+            if init is None or stopm is None or mon is None:
+                continue
+            embedded = {src(a.targets[0])[5:] for a in ast.walk(init) if isinstance(a, ast.Assign) and src(a.targets[0]).startswith("self.") and isinstance(a.value, ast.Call) and (call_name(a.value) or "").endswith("Executor")}
+            stops_embedded = [e for e in embedded if any(call_name(c) == f"self.{e}.stop" for c in calls_in(stopm))]
+            if not stops_embedded:
+                continue
+            n8 += 1
+            calls_stop = [c for c in calls_in(mon) if call_name(c) == "self.stop"]
+            r8.check(
+                not calls_stop,
+                f"{rel}:{cname}._monitor:stops-embedded:{stops_embedded[0]}",
+                f"{cname}._monitor ends with self.stop() (line {calls_stop[0].lineno if calls_stop else 0}), and {cname}.stop() also stops self.{stops_embedded[0]}, an executor with its own monitor thread: a debug job still pending "
+                f"there when the batch jobs are done is never polled again and never reported",
+                rel,
+                calls_stop[0].lineno if calls_stop else mon.lineno,
+            )
+    if n8 < 2:
+        raise AnalysisError(f"only {n8} executors with an embedded executor stopped by stop() found (AWS Batch, GCP Batch expected)", "executors")
+
+    # ---- C10.9 the arrayer is restarted when a job arrives while a stop() is in flight ----------------
+    r9 = ctx.rule("C10.9", "JobArrayer.start() does not take a thread that has been told to exit for a running one", floor=1)
+    jam = repo.mod("redun/job_array.py")
+    st9 = jam.func("JobArrayer.start")
+    cfg9 = CFG(st9)
+    for nn in cfg9.nodes:
+        if nn.kind == "stmt" and isinstance(nn.ast, ast.Return) and any("is_alive()" in f and t for f, t in _facts_c10(cfg9, nn)):
+            facts = _facts_c10(cfg9, nn)
+            ok = any("_exit_flag.is_set()" in f and not t for f, t in facts)
+            r9.check(
+                ok,
+                f"{jam.rel}:JobArrayer.start:alive-but-exiting",
+                "JobArrayer.start() returns as soon as the old thread is_alive(), also when stop() has already set the exit flag: the thread then leaves its loop without flushing the job that was just added, "
+                "and no arrayer thread is left to submit it",
+                jam.rel,
+                nn.lineno,
+            )
 
 
 def _unregistered_path(fn, jv):
